@@ -227,7 +227,8 @@ def _eval_inner(case):
         for v, f in zip(verts, case["fixed"]):
             v.fixed = bool(f)
         pre = pre + ["history"]
-    fixed_eff = [bool(v.fixed) for v in verts]
+    # the INTENDED flags (what the caller marked), not what the objects report back
+    fixed_eff = [bool(v.get("fixed", False)) for v in spec["vertices"]]
     if case["ffp"]:
         fixed_eff[0] = True
     ref = gn.step(verts, edges, fixed_eff)
